@@ -13,6 +13,8 @@ Copy i uses two letters (p, q); the kinds of classes of a copy:
              `Pointing` (count n * a_n): one child object corresponds to n parent objects (the backward map is not injective)
   variant P: C = Aq x Ps used forwards (a product whose first factor is not an atom and has minimum size 1), everything
              specified down to atoms: Aq = q + p Aq + q Aq, Ps = eps + p Ps
+  variant K: as F, but X is not verified by brute force: the pack offered for C verifies X by a strategy that itself offers a
+             pack (X = p A, A = eps + p A + q A): a chain of verifications with packs
   variant S: C = (p|q)+ = X + swap(X): a union rule with the *same* child class twice, told apart by the child index only
 Root R = g + C1 + ... + Ck  (`g` a one-letter atom). Everything the oracle needs is generated directly from these
 definitions (`words`), independently of the library. The classes duck-type upword.PW for the shared helpers
@@ -62,7 +64,9 @@ def _words(name, n, sig):
         lo = 2 if v == "Y" else 1
         return [p + t for t in _tails(p, q, n - 1)] if n >= lo else []
     if kind == "bD":
-        return [q + w for w in _words(("X" if v == "F" else "D") + k, n - 1, sig)] if n >= 1 else []
+        return [q + w for w in _words(("X" if v in ("F", "K") else "D") + k, n - 1, sig)] if n >= 1 else []
+    if kind in ("pA", "qA"):
+        return [(p if kind == "pA" else q) + w for w in _tails(p, q, n - 1)] if n >= 1 else []
     if kind == "Aq":
         return [t + q for t in _tails(p, q, n - 1)] if n >= 1 else []
     if kind == "Ps":
@@ -292,7 +296,11 @@ class GBrute(VerificationStrategy):
         super().__init__()
 
     def verified(self, c):
-        return isinstance(c, GL) and c.name[:-1] in self.kinds
+        if not isinstance(c, GL) or c.name[:-1] not in self.kinds:
+            return False
+        if c.name[:-1] == "X" and c.sig[int(c.name[-1])] == "K":
+            return type(self) is GPackVer2  # in a K copy X is verified only by the strategy that offers the second pack
+        return type(self) is not GPackVer2
 
     def formal_step(self):
         return "brute force"
@@ -361,8 +369,33 @@ def inner_pack(sig):
             prod["bD" + k] = ("T" + k, "D" + k)
         else:
             prod["bD" + k] = ("T" + k, "X" + k)
+    if "K" in sig:
+        return StrategyPack(initial_strats=[GUnion(union), GProd(prod), GSym(sym), GPoint(point)], inferral_strats=[], expansion_strats=[],
+                            ver_strats=[AtomStrategy(), GPackVer2(["X"]), GBrute(["X", "Pq", "Ps", "A"])], name="inner")
     return StrategyPack(initial_strats=[GUnion(union), GProd(prod), GSym(sym), GPoint(point)], inferral_strats=[], expansion_strats=[],
                         ver_strats=[AtomStrategy(), GBrute(["X", "Pq", "Ps", "A"])], name="inner")
+
+
+def second_pack(sig):
+    prod, union = {}, {}
+    for k, v in ((str(i), x) for i, x in enumerate(sig)):
+        if v == "K":
+            prod["X" + k] = ("Y" + k, "A" + k)
+            union["A" + k] = ("Eps" + k, "pA" + k, "qA" + k)
+            prod["pA" + k] = ("Y" + k, "A" + k)
+            prod["qA" + k] = ("T" + k, "A" + k)
+    return StrategyPack(initial_strats=[GUnion(union), GProd(prod)], inferral_strats=[], expansion_strats=[],
+                        ver_strats=[AtomStrategy()], name="second")
+
+
+class GPackVer2(GBrute):
+    """verifies X in the K copies and offers the second pack"""
+
+    def formal_step(self):
+        return "verified with a second pack"
+
+    def pack(self, c):
+        return second_pack(c.sig)
 
 
 class GPackVer(GBrute):
